@@ -128,6 +128,10 @@ def check_tokens(sql: str, dialect: str, tokens=None):
             return []
         except Exception:
             return []  # internal exceptions: C05
+    if tokens and tokens[0].token_type.name == "HIVE_TOKEN_STREAM" and tokens[0].text == "":
+        # Athena prepends a zero-width marker (not a lexeme) and hands the statement to Hive's tokenizer: judge the rest as Hive's
+        tokens = tokens[1:]
+        L = lex_for("hive")
     probs = []
     n = len(sql)
     lone_cr = has_lone_cr(sql)
@@ -289,6 +293,32 @@ def worker(shard, nshards, plan):
                 if idx % nshards != shard:
                     continue
                 errors_and_nodes(sql, dialect, res, record)
+        elif kind == "corpus":
+            # statements of the repository's dialect tests: as written, and with every gap between two tokens turned into a
+            # line break / CRLF + tab (dialect-specific lexemes - heredocs, hints, prefixes, nested comments - now span lines)
+            for sql in unit[2]:
+                idx += 1
+                if idx % nshards != shard:
+                    continue
+                one(sql, dialect, "corpus", res, record)
+                errors_and_nodes(sql, dialect, res, record)
+                try:
+                    toks = lex_for(dialect).D.tokenize(sql)
+                except Exception:
+                    continue
+                if len(toks) >= 2 and all(0 <= a.end < b.start for a, b in zip(toks, toks[1:])):
+                    for sep in ("\n", "\r\n\t"):
+                        parts, last = [], 0
+                        for a, b in zip(toks, toks[1:]):
+                            gap = sql[a.end + 1:b.start]
+                            parts.append(sql[last:a.end + 1])
+                            parts.append(sep if gap.strip() == "" and gap != "" else gap)
+                            last = b.start
+                        parts.append(sql[last:])
+                        v = "".join(parts)
+                        one(v, dialect, "corpus", res, record)
+                        if sep == "\n" and len(unit) > 3 and unit[3]:
+                            errors_and_nodes(v, dialect, res, record)
     res["viol"] = list(res["viol"].items())
     return res
 
@@ -299,6 +329,8 @@ def sig_shape(code, msg):
     if code == "lexeme":
         m = re.match(r"(\w+) token", msg)
         return (m.group(1) if m else "?") + ":" + msg.rsplit(": ", 1)[-1]
+    if code == "node.span":
+        return msg[1:msg.index("]")] if msg.startswith("[") else ""
     if code in ("linecol", "span.range", "span.overlap"):
         m = re.match(r"(\w+) token", msg)
         return m.group(1) if m else "?"
@@ -340,12 +372,14 @@ def errors_and_nodes(sql, dialect, res, record):
         for node in tree.walk():
             if isinstance(node, exp.Identifier):
                 m = node._meta or {}
-                if "start" in m and "end" in m:
+                if isinstance(m.get("start"), int) and isinstance(m.get("end"), int):   # None: no position recorded (synthesised token)
                     res["nodes_checked"] += 1
                     seg = sql[m["start"]:m["end"] + 1]
                     name = node.name
                     if name.lower() not in seg.lower() and "\\" not in seg:
-                        record("node.span", dialect, "nodes", sql, f"identifier {name!r} records span {m['start']}..{m['end']} = {seg!r}")
+                        where = ("synthesised" if name.lower() not in sql.lower() else "in_hint" if node.find_ancestor(exp.Hint) else
+                                 f"{type(node.parent).__name__}.{node.arg_key}")
+                        record("node.span", dialect, "nodes", sql, f"[{where}] identifier {name!r} records span {m['start']}..{m['end']} = {seg!r}")
                     elif 0 <= m["end"] < len(sql) and (m.get("line"), m.get("col")) != pos[m["end"]]:
                         record("node.linecol", dialect, "nodes", sql, f"identifier {name!r} records line/col {(m.get('line'), m.get('col'))}, text position {pos[m['end']]}")
     # (c) single-token deletions / duplications -> ParseError entries
@@ -399,6 +433,12 @@ def run(ctx: Ctx) -> None:
         plan.append(("lexemes", d, 3 if quick else 3, JOINERS_QUICK if quick else JOINERS))
     for d in (QUICK_DIALECTS if quick else dialects):
         plan.append(("errors", d, 1))
+    by_d = {}
+    for d, sql in corpus.dialect_test_sql():
+        by_d.setdefault(d, []).append(sql)
+    for d, sqls in sorted(by_d.items()):
+        for i in range(0, len(sqls), 200):
+            plan.append(("corpus", d, sqls[i:i + 200], not quick))
     res = ctx.run_shards(worker, ctx.jobs * 3, plan)
     viol: dict = {}
     for k, v in res["viol"]:
@@ -419,7 +459,8 @@ def run(ctx: Ctx) -> None:
             "rule": "all character strings of length <= L over a per-dialect alphabet (whitespace kinds, CR/LF, multi-byte characters, every "
                     "quote/identifier delimiter, comment markers, number characters) in every dialect; all sequences of <= 3 lexemes from a "
                     "~35-entry menu joined by every separator; every single-token deletion/duplication of G_core (k<=1) statements for "
-                    "ParseError entries; identifier position meta on G_core parses. non-trivial = inputs with >= 2 tokens and a line break or "
+                    "ParseError entries; identifier position meta on G_core parses; the same three oracles on every statement of tests/dialects/*.py "
+                    "in its own dialect, as written and with every inter-token gap turned into LF / CRLF+TAB. non-trivial = inputs with >= 2 tokens and a line break or "
                     "multi-byte character.",
             "tokens_checked": res["tokens"],
             "parse_error_entries_checked": res["errors_checked"],
